@@ -244,7 +244,8 @@ def unexpected_row(rng, e, rows, kind=None, votes=None):
         uid = f"9{n % 10000:04d}"
     else:
         cf = base["county_fips"] if kind == "known-county" else f"9{rng.randint(0, 9)}999"
-        uid = f"{cf}_{n}"
+        # split precincts carry an underscore inside the precinct part of the id
+        uid = f"{cf}_{n}" if rng.random() < 0.6 else f"{cf}_{n % 1000:04d}_{rng.choice('AB')}"
     if e.unit_type == "precinct-district":
         d = base.get("district", "01") if rng.random() < 0.7 else "09"
         uid = f"{d}_{uid}"
